@@ -319,7 +319,8 @@ func genGenesis(g *Gen, n int) {
 			sub.forceDenom = (sc/len(rot))%2 == 0
 		}
 		if kind == "minterupd" {
-			kind = "minter"
+			// parameter updates, rotating through the directed update shapes (incl. an unset start time)
+			sub.shape = 1 + sc/len(rot)
 		}
 		generators[kind](sub, 1)
 		lines := sub.lines
@@ -360,7 +361,7 @@ func genGenesis(g *Gen, n int) {
 			}
 			g.emit("%s", l)
 			if at[i] {
-				if kind == "minter" {
+				if kind == "minter" || kind == "minterupd" {
 					g.emit("g.settle") // the distributor's BeginBlocker follows the minter's in every real block
 				}
 				g.emit("g.exportimport")
